@@ -532,7 +532,10 @@ class PeerConnection:
                 shutting down the peer.
 
         """
-        self.state = PEER_CLOSED
+        # under the lock under which other threads change the state depending
+        # on its value: a closed connection stays closed
+        with self.state_lock:
+            self.state = PEER_CLOSED
         self._read_thread.stop()
         self._write_thread.stop()
         if signal_node:
